@@ -7,6 +7,7 @@ import (
 
 	"github.com/cedar-policy/cedar-go/ast"
 	"github.com/cedar-policy/cedar-go/internal/eval"
+	"github.com/cedar-policy/cedar-go/internal/parser"
 	"github.com/cedar-policy/cedar-go/internal/vrt"
 	"github.com/cedar-policy/cedar-go/types"
 	internalast "github.com/cedar-policy/cedar-go/x/exp/ast"
@@ -20,6 +21,10 @@ func c08Eval(p *Policy, env eval.Env) (types.Boolean, error) {
 	be := eval.Compile(p.ast)
 	return be.Eval(env)
 }
+
+// c08Strict: the generated tree contains no value that legitimately changes shape in text
+// (set/record/extension *values*), so the reparsed condition must be the identical tree.
+var c08Strict bool
 
 func c08Check(a *internalast.Policy, g eval.VGenEnv) {
 	p := newPolicy(a)
@@ -35,6 +40,9 @@ func c08Check(a *internalast.Policy, g eval.VGenEnv) {
 	vrt.Assert("C08.annotations.count", len(p2.ast.Annotations) == len(a.Annotations))
 	for i := range a.Annotations {
 		vrt.Assert("C08.annotations.same", p2.ast.Annotations[i].Key == a.Annotations[i].Key && p2.ast.Annotations[i].Value == a.Annotations[i].Value)
+	}
+	if c08Strict && err == nil && len(a.Conditions) == 1 && len(p2.ast.Conditions) == 1 {
+		vrt.Assert("C08.same-tree", parser.VEqNode(a.Conditions[0].Body, p2.ast.Conditions[0].Body))
 	}
 	b1, e1 := c08Eval(p, g.Env())
 	b2, e2 := c08Eval(&p2, g.Env())
@@ -96,6 +104,7 @@ func c08Ops() (bin []int, un []int) {
 }
 
 func VerifC08_PairsRoundTrip() {
+	c08Strict = true
 	vrt.Theory("int")
 	eval.VGenDigitPayloads(true)
 	g := eval.VGenMkEnv()
